@@ -6,6 +6,23 @@ def doc(prog, tier):
 
 DOC_SPEC = {'make': doc, 'time_limit': {'quick': 420, 'thorough': 2400}}
 
+def doc_lists(prog, tier):
+    if tier == 'quick':
+        return h_doc.DocHarness(prog, tier, budget=6, max_nest=3, kinds=('Para', 'Bullet', 'Ordered'),
+                                name='doc_pipeline_lists', covers=('list', 'merged-item'))
+    return h_doc.DocHarness(prog, tier, budget=7, max_nest=3, kinds=('Para', 'Header', 'Bullet', 'Ordered'),
+                            name='doc_pipeline_lists', covers=('heading', 'list', 'merged-item', 'nested-heading'))
+def doc_lists_h(prog, tier):
+    return h_doc.DocHarness(prog, tier, budget=5, max_nest=3, kinds=('Para', 'Header', 'Bullet', 'Ordered'),
+                            name='doc_pipeline_lists_headings', covers=('heading', 'list', 'merged-item', 'nested-heading'))
+def doc_headings(prog, tier):
+    return h_doc.DocHarness(prog, tier, budget=6 if tier == 'quick' else 8, max_nest=0, kinds=('Para', 'Header'),
+                            name='doc_pipeline_headings', covers=('heading', 'nested-heading', 'wellnested-input', 'non-wellnested-input'))
+LISTS_SPEC = {'make': doc_lists, 'time_limit': {'quick': 420, 'thorough': 2400}}
+LISTS_H_SPEC = {'make': doc_lists_h, 'time_limit': {'quick': 420, 'thorough': 600}}
+HEADINGS_SPEC = {'make': doc_headings, 'time_limit': {'quick': 300, 'thorough': 2400}}
+DOC_ALL = [DOC_SPEC, LISTS_SPEC, LISTS_H_SPEC, HEADINGS_SPEC]
+
 COMMON = [
     'Deciding step: z3 over path conditions of the real MIR (rustc -Zunpretty=mir of /repo working tree, overflow-checks on); '
     'every function of liwe/iwes is executed from its MIR, functions of other crates by native models listed in coverage.trusted_base',
@@ -24,8 +41,8 @@ PROPS = {
         'line_starts over strings given by their line structure (symbolic line lengths, LF / CRLF / missing final newline), std str::lines / '
         'split_inclusive / split / len modelled on that structure',
         'which byte ranges pulldown-cmark reports for a block (e.g. a last line without newline) and UTF-16 vs byte columns are outside the claim']},
-    'C01': {'specs': [DOC_SPEC], 'notes': COMMON + ['claimed at block level: every block/token of the input appears once, in order, in the same container, same kind']},
-    'C03': {'specs': [DOC_SPEC], 'notes': COMMON + ['claimed for blocks -> graph -> tree -> projection: every compiler-emitted panic edge / unwrap / expect / explicit panic reachable within the bounds is a violation']},
-    'C07': {'specs': [DOC_SPEC], 'notes': COMMON + ['heading levels are symbolic u8 in 1..6; laws: order kept, emitted outline well nested, well-nested input keeps its levels, blocks stay under the nearest preceding heading']},
-    'C20': {'specs': [DOC_SPEC], 'notes': COMMON + ['representation invariant checked on every arena produced within the bounds (establish step)']},
+    'C01': {'specs': DOC_ALL, 'notes': COMMON + ['claimed at block level: every block/token of the input appears once, in order, in the same container, same kind']},
+    'C03': {'specs': DOC_ALL, 'notes': COMMON + ['claimed for blocks -> graph -> tree -> projection: every compiler-emitted panic edge / unwrap / expect / explicit panic reachable within the bounds is a violation']},
+    'C07': {'specs': DOC_ALL, 'notes': COMMON + ['heading levels are symbolic u8 in 1..6; laws: order kept, emitted outline well nested, well-nested input keeps its levels, blocks stay under the nearest preceding heading']},
+    'C20': {'specs': DOC_ALL, 'notes': COMMON + ['representation invariant checked on every arena produced within the bounds (establish step)']},
 }
